@@ -373,6 +373,7 @@ class HttpStreamSession:
         "_on_log",
         "_output_schema",
         "_pending_batches",
+        "_pending_error",
         "_retry_config",
         "_state_bytes",
         "_url_prefix",
@@ -396,6 +397,7 @@ class HttpStreamSession:
         retry_config: HttpRetryConfig | None = None,
         compression_level: int | None = None,
         capabilities: HttpServerCapabilities | None = None,
+        pending_error: RpcError | None = None,
     ) -> None:
         """Initialize with HTTP client, method details, and initial state."""
         self._client = client
@@ -412,6 +414,9 @@ class HttpStreamSession:
         self._external_config = external_config
         self._ipc_validation = ipc_validation
         self._pending_batches: list[AnnotatedBatch] = pending_batches or []
+        # Error that followed the preloaded batches in the init response; raised
+        # once they have been handed out, as a lockstep transport would.
+        self._pending_error: RpcError | None = pending_error
         self._finished = finished
         self._header = header
         self._retry_config = retry_config
@@ -626,6 +631,9 @@ class HttpStreamSession:
         # Yield pre-loaded batches from init response
         yield from self._pending_batches
         self._pending_batches.clear()
+        if self._pending_error is not None:
+            pending_error, self._pending_error = self._pending_error, None
+            raise pending_error
 
         if self._finished:
             return
@@ -700,6 +708,9 @@ class HttpStreamSession:
             if len(self._pending_batches) > 1:
                 raise RuntimeError(_multi)
             return self._pending_batches.pop(0), self._resume_token()
+        if self._pending_error is not None:
+            pending_error, self._pending_error = self._pending_error, None
+            raise pending_error
 
         if self._finished or self._state_bytes is None:
             self._finished = True
@@ -760,6 +771,7 @@ class HttpStreamSession:
         """
         self._state_bytes, self._call_state_bytes = _decode_resume_token(token)
         self._pending_batches = []
+        self._pending_error = None
         self._finished = False
 
     def close(self) -> None:
@@ -1005,6 +1017,7 @@ def _init_http_stream_session(
     state_bytes: bytes | None = None
     call_state_bytes: bytes | None = None
     pending_batches: list[AnnotatedBatch] = []
+    pending_error: RpcError | None = None
     finished = False
 
     try:
@@ -1037,9 +1050,14 @@ def _init_http_stream_session(
                 batch, custom_metadata, external_config, on_log, reader.ipc_validation
             )
             pending_batches.append(AnnotatedBatch(batch=resolved_batch, custom_metadata=resolved_cm))
-    except RpcError:
+    except RpcError as exc:
         _drain_stream(reader)
-        raise
+        if not pending_batches:
+            raise
+        # The producer failed after emitting data in this same response: keep
+        # the batches and surface the error once the caller has consumed them.
+        pending_error = exc
+        finished = True
 
     _drain_stream(reader)
 
@@ -1059,6 +1077,7 @@ def _init_http_stream_session(
         retry_config=retry_config,
         compression_level=compression_level,
         capabilities=capabilities,
+        pending_error=pending_error,
     )
 
 
